@@ -15,12 +15,30 @@
 package index
 
 import (
+	"reflect"
 	"sync/atomic"
 )
 
 func (s *Writer) Stats() Stats {
-	// copy current stats
-	rv := s.stats
+	// copy current stats; the counters are updated with sync/atomic by
+	// concurrent batches, searches, the persister and the merger, so they
+	// have to be loaded the same way (a plain struct copy is a data race)
+	var rv Stats
+	src := reflect.ValueOf(&s.stats).Elem()
+	dst := reflect.ValueOf(&rv).Elem()
+	for i := 0; i < src.NumField(); i++ {
+		if dst.Field(i).CanSet() {
+			dst.Field(i).SetUint(atomic.LoadUint64(src.Field(i).Addr().Interface().(*uint64)))
+		}
+	}
+	rv.persistEpoch = atomic.LoadUint64(&s.stats.persistEpoch)
+	rv.persistSnapshotSize = atomic.LoadUint64(&s.stats.persistSnapshotSize)
+	rv.mergeEpoch = atomic.LoadUint64(&s.stats.mergeEpoch)
+	rv.mergeSnapshotSize = atomic.LoadUint64(&s.stats.mergeSnapshotSize)
+	rv.newSegBufBytesAdded = atomic.LoadUint64(&s.stats.newSegBufBytesAdded)
+	rv.newSegBufBytesRemoved = atomic.LoadUint64(&s.stats.newSegBufBytesRemoved)
+	rv.analysisBytesAdded = atomic.LoadUint64(&s.stats.analysisBytesAdded)
+	rv.analysisBytesRemoved = atomic.LoadUint64(&s.stats.analysisBytesRemoved)
 
 	// add some computed values
 	numFilesOnDisk, numBytesUsedDisk := s.directory.Stats()
@@ -28,7 +46,7 @@ func (s *Writer) Stats() Stats {
 	rv.CurOnDiskBytes = numBytesUsedDisk
 	rv.CurOnDiskFiles = numFilesOnDisk
 
-	return s.stats
+	return rv
 }
 
 // Stats tracks statistics about the index, fields that are
